@@ -1,12 +1,548 @@
-// Package instrument rewrites a scratch copy of go-json (never /repo itself):
-// R1 sync types -> verifsim types, R2 yields, R3 cache entry point wrappers.
+// Package instrument rewrites a scratch copy of go-json (never /repo itself).
+//
+//	R1  sync.Pool / Mutex / RWMutex / Once  ->  verifsim.Pool / Mutex / RWMutex / Once
+//	R2  verifsim.Yield(site) before statements that touch synchronisation
+//	    objects, atomics or mutable package-level variables (class A), before
+//	    stores through selectors / index expressions outside the VM packages
+//	    (class B), and at function entry in internal/encoder and
+//	    internal/decoder (class C)
+//	R3  CompileToGetCodeSet / CompileToGetDecoder are renamed and wrapped; the
+//	    wrapper reports (requested type, program, program's own type) to the
+//	    identity tables of verifsim (C14, oracle O4)
+//
+// The rules are purely syntactic so that they re-apply to any edited tree.
 package instrument
+
+import (
+	"encoding/json"
+	"fmt"
+	"go/ast"
+	"go/parser"
+	"go/token"
+	"os"
+	"path/filepath"
+	"sort"
+	"strconv"
+	"strings"
+)
 
 type Report struct {
 	Files, Yields, ClassA, ClassB, ClassC, SyncTypes, Wrapped int
 	SitesJSON                                                 []byte
 }
 
-func Rewrite(dir, modPath string) (*Report, error) {
-	return &Report{}, nil
+type site struct {
+	ID    uint32 `json:"id"`
+	Class int    `json:"class"`
+	Pos   string `json:"pos"`
+	Why   string `json:"why"`
 }
+
+type rewriter struct {
+	modPath string
+	root    string
+	rep     *Report
+	sites   []site
+	nextIdx uint32
+}
+
+var syncTypes = map[string]bool{"Pool": true, "Mutex": true, "RWMutex": true, "Once": true}
+var lockMethods = map[string]bool{"Lock": true, "Unlock": true, "RLock": true, "RUnlock": true, "Do": true, "Get": true, "Put": true}
+
+func Rewrite(dir, modPath string) (*Report, error) {
+	rw := &rewriter{modPath: modPath, root: dir, rep: &Report{}, nextIdx: 1}
+	// group files by directory (= package)
+	pkgs := map[string][]string{}
+	err := filepath.Walk(dir, func(p string, info os.FileInfo, err error) error {
+		if err != nil {
+			return err
+		}
+		if info.IsDir() {
+			base := filepath.Base(p)
+			if base == "verifsim" || base == "generator" || base == "testdata" {
+				return filepath.SkipDir
+			}
+			return nil
+		}
+		if strings.HasSuffix(p, ".go") && !strings.HasSuffix(p, "_test.go") {
+			d := filepath.Dir(p)
+			pkgs[d] = append(pkgs[d], p)
+		}
+		return nil
+	})
+	if err != nil {
+		return nil, err
+	}
+	var dirs []string
+	for d := range pkgs {
+		dirs = append(dirs, d)
+	}
+	sort.Strings(dirs)
+	for _, d := range dirs {
+		rel, _ := filepath.Rel(dir, d)
+		if rel == filepath.Join("internal", "runtime") || rel == filepath.Join("internal", "errors") {
+			continue // linkname-heavy / trivial: left untouched
+		}
+		sort.Strings(pkgs[d])
+		if err := rw.rewritePackage(d, rel, pkgs[d]); err != nil {
+			return nil, err
+		}
+	}
+	rw.rep.SitesJSON, _ = json.MarshalIndent(rw.sites, "", " ")
+	return rw.rep, nil
+}
+
+func (rw *rewriter) rewritePackage(dir, rel string, files []string) error {
+	fset := token.NewFileSet()
+	var parsed []*ast.File
+	for _, f := range files {
+		af, err := parser.ParseFile(fset, f, nil, parser.ParseComments)
+		if err != nil {
+			return fmt.Errorf("parse %s: %w", f, err)
+		}
+		parsed = append(parsed, af)
+	}
+	isVM := strings.Contains(rel, filepath.Join("encoder", "vm"))
+	classC := rel == filepath.Join("internal", "encoder") || rel == filepath.Join("internal", "decoder")
+
+	// package-level variables and which of them are mutable
+	pkgVars := map[string]bool{}
+	for _, af := range parsed {
+		for _, d := range af.Decls {
+			gd, ok := d.(*ast.GenDecl)
+			if !ok || gd.Tok != token.VAR {
+				continue
+			}
+			for _, sp := range gd.Specs {
+				vs := sp.(*ast.ValueSpec)
+				for _, n := range vs.Names {
+					if n.Name != "_" {
+						pkgVars[n.Name] = true
+					}
+				}
+			}
+		}
+	}
+	mutable := map[string]bool{}
+	markRoot := func(e ast.Expr) {
+		for {
+			switch x := e.(type) {
+			case *ast.Ident:
+				if pkgVars[x.Name] {
+					mutable[x.Name] = true
+				}
+				return
+			case *ast.SelectorExpr:
+				e = x.X
+			case *ast.IndexExpr:
+				e = x.X
+			case *ast.StarExpr:
+				e = x.X
+			case *ast.ParenExpr:
+				e = x.X
+			default:
+				return
+			}
+		}
+	}
+	for _, af := range parsed {
+		for _, d := range af.Decls {
+			// sync-typed package variables are mutable by nature
+			if gd, ok := d.(*ast.GenDecl); ok && gd.Tok == token.VAR {
+				for _, sp := range gd.Specs {
+					vs := sp.(*ast.ValueSpec)
+					isSync := false
+					check := func(e ast.Expr) {
+						ast.Inspect(e, func(n ast.Node) bool {
+							if se, ok := n.(*ast.SelectorExpr); ok {
+								if id, ok := se.X.(*ast.Ident); ok && id.Name == "sync" && syncTypes[se.Sel.Name] {
+									isSync = true
+								}
+							}
+							return true
+						})
+					}
+					if vs.Type != nil {
+						check(vs.Type)
+					}
+					for _, v := range vs.Values {
+						check(v)
+					}
+					if isSync {
+						for _, n := range vs.Names {
+							mutable[n.Name] = true
+						}
+					}
+				}
+			}
+			fd, ok := d.(*ast.FuncDecl)
+			if !ok || fd.Body == nil || fd.Name.Name == "init" {
+				continue
+			}
+			ast.Inspect(fd.Body, func(n ast.Node) bool {
+				switch x := n.(type) {
+				case *ast.AssignStmt:
+					if x.Tok != token.DEFINE {
+						for _, l := range x.Lhs {
+							markRoot(l)
+						}
+					}
+				case *ast.IncDecStmt:
+					markRoot(x.X)
+				case *ast.UnaryExpr:
+					if x.Op == token.AND {
+						markRoot(x.X)
+					}
+				}
+				return true
+			})
+		}
+	}
+
+	for i, af := range parsed {
+		path := files[i]
+		relFile, _ := filepath.Rel(rw.root, path)
+		src, err := os.ReadFile(path)
+		if err != nil {
+			return err
+		}
+		var edits []edit
+		usesVerifsim := false
+		off := func(p token.Pos) int { return fset.Position(p).Offset }
+
+		// R1: sync.X -> verifsim.X (textual, positions of comments are untouched)
+		syncLeft := false
+		ast.Inspect(af, func(n ast.Node) bool {
+			se, ok := n.(*ast.SelectorExpr)
+			if !ok {
+				return true
+			}
+			if id, ok := se.X.(*ast.Ident); ok && id.Name == "sync" {
+				if syncTypes[se.Sel.Name] {
+					edits = append(edits, edit{off(id.Pos()), len("sync"), "verifsim"})
+					rw.rep.SyncTypes++
+					usesVerifsim = true
+				} else {
+					syncLeft = true
+				}
+			}
+			return true
+		})
+
+		// R3: rename the cache entry points
+		for _, d := range af.Decls {
+			fd, ok := d.(*ast.FuncDecl)
+			if !ok || fd.Recv != nil {
+				continue
+			}
+			if fd.Name.Name == "CompileToGetCodeSet" || fd.Name.Name == "CompileToGetDecoder" {
+				edits = append(edits, edit{off(fd.Name.Pos()), 0, "verifOrig"})
+			}
+		}
+
+		// R2
+		for _, d := range af.Decls {
+			fd, ok := d.(*ast.FuncDecl)
+			if !ok || fd.Body == nil || fd.Name.Name == "init" {
+				continue
+			}
+			if hasDirective(fd.Doc) {
+				continue
+			}
+			ins := &inserter{rw: rw, fset: fset, file: relFile, mutable: mutable, isVM: isVM}
+			ins.block(fd.Body)
+			if classC && !isVM && len(fd.Body.List) > 0 {
+				id := rw.newSite(3, fset.Position(fd.Pos()), relFile, "func "+fd.Name.Name)
+				ins.edits = append(ins.edits, edit{off(fd.Body.Lbrace) + 1, 0, " " + yieldText(id) + ";"})
+				rw.rep.ClassC++
+			}
+			if len(ins.edits) > 0 {
+				edits = append(edits, ins.edits...)
+				usesVerifsim = true
+			}
+		}
+		if len(edits) == 0 {
+			continue
+		}
+		if usesVerifsim {
+			// a separate import declaration right after the package clause
+			edits = append(edits, edit{off(af.Name.End()), 0, "\n\nimport verifsim \"" + rw.modPath + "/verifsim\"\n"})
+		}
+		hasSyncImport := false
+		for _, im := range af.Imports {
+			if im.Path.Value == `"sync"` && im.Name == nil {
+				hasSyncImport = true
+			}
+		}
+		out := applyEdits(src, edits)
+		if hasSyncImport && !syncLeft {
+			out = append(out, []byte("\nvar _ sync.Locker // keeps the import used after the type swap\n")...)
+		}
+		if _, err := parser.ParseFile(token.NewFileSet(), path, out, 0); err != nil {
+			return fmt.Errorf("rewritten %s does not parse: %w", path, err)
+		}
+		if err := os.WriteFile(path, out, 0o644); err != nil {
+			return err
+		}
+		rw.rep.Files++
+	}
+
+	// R3 wrappers
+	switch rel {
+	case filepath.Join("internal", "encoder"):
+		src := `package encoder
+
+import (
+	"unsafe"
+
+	"` + rw.modPath + `/verifsim"
+)
+
+// CompileToGetCodeSet wraps the original entry point (both build variants)
+// with the identity assertion of C14.
+func CompileToGetCodeSet(ctx *RuntimeContext, typeptr uintptr) (*OpcodeSet, error) {
+	set, err := verifOrigCompileToGetCodeSet(ctx, typeptr)
+	if err == nil && set != nil {
+		verifsim.CheckProgram("enc", typeptr, uintptr(unsafe.Pointer(set)), uintptr(unsafe.Pointer(set.Type)))
+	}
+	return set, err
+}
+`
+		if err := os.WriteFile(filepath.Join(dir, "verif_wrap.go"), []byte(src), 0o644); err != nil {
+			return err
+		}
+		rw.rep.Wrapped++
+	case filepath.Join("internal", "decoder"):
+		src := `package decoder
+
+import (
+	"unsafe"
+
+	"` + rw.modPath + `/internal/runtime"
+	"` + rw.modPath + `/verifsim"
+)
+
+// CompileToGetDecoder wraps the original entry point (both build variants)
+// with the identity assertion of C14.
+func CompileToGetDecoder(typ *runtime.Type) (Decoder, error) {
+	dec, err := verifOrigCompileToGetDecoder(typ)
+	if err == nil && dec != nil {
+		verifsim.CheckProgram("dec", uintptr(unsafe.Pointer(typ)), (*[2]uintptr)(unsafe.Pointer(&dec))[1], 0)
+	}
+	return dec, err
+}
+`
+		if err := os.WriteFile(filepath.Join(dir, "verif_wrap.go"), []byte(src), 0o644); err != nil {
+			return err
+		}
+		rw.rep.Wrapped++
+	}
+	return nil
+}
+
+func hasDirective(doc *ast.CommentGroup) bool {
+	if doc == nil {
+		return false
+	}
+	for _, c := range doc.List {
+		if strings.HasPrefix(c.Text, "//go:") {
+			return true
+		}
+	}
+	return false
+}
+
+func (rw *rewriter) newSite(class int, pos token.Position, file, why string) uint32 {
+	idx := rw.nextIdx
+	rw.nextIdx++
+	if rw.nextIdx >= 0xFFFF {
+		rw.nextIdx = 1 // wrap: ids are only used for counting and replay
+	}
+	id := uint32(class)<<24 | idx
+	rw.sites = append(rw.sites, site{ID: id, Class: class, Pos: fmt.Sprintf("%s:%d", file, pos.Line), Why: why})
+	rw.rep.Yields++
+	return id
+}
+
+type edit struct {
+	off int
+	del int
+	ins string
+}
+
+func applyEdits(src []byte, edits []edit) []byte {
+	sort.SliceStable(edits, func(i, j int) bool { return edits[i].off < edits[j].off })
+	var out []byte
+	pos := 0
+	for _, e := range edits {
+		if e.off < pos {
+			continue // overlapping (cannot happen for our edits)
+		}
+		out = append(out, src[pos:e.off]...)
+		out = append(out, e.ins...)
+		pos = e.off + e.del
+	}
+	return append(out, src[pos:]...)
+}
+
+func yieldText(id uint32) string {
+	return "verifsim.Yield(0x" + strconv.FormatUint(uint64(id), 16) + ")"
+}
+
+type inserter struct {
+	rw      *rewriter
+	fset    *token.FileSet
+	file    string
+	mutable map[string]bool
+	isVM    bool
+	edits   []edit
+}
+
+// classify looks at the statement's own expressions (not at nested blocks,
+// whose statements get their own yields).
+func (ins *inserter) classify(st ast.Stmt) (int, string) {
+	class, why := 0, ""
+	var exprs []ast.Node
+	switch s := st.(type) {
+	case *ast.ExprStmt:
+		exprs = append(exprs, s.X)
+	case *ast.AssignStmt:
+		for _, e := range s.Lhs {
+			exprs = append(exprs, e)
+		}
+		for _, e := range s.Rhs {
+			exprs = append(exprs, e)
+		}
+		if !ins.isVM && s.Tok != token.DEFINE {
+			for _, l := range s.Lhs {
+				switch l.(type) {
+				case *ast.SelectorExpr, *ast.IndexExpr, *ast.StarExpr:
+					class, why = 2, "store"
+				}
+			}
+		}
+	case *ast.IncDecStmt:
+		exprs = append(exprs, s.X)
+	case *ast.ReturnStmt:
+		for _, e := range s.Results {
+			exprs = append(exprs, e)
+		}
+	case *ast.IfStmt:
+		if s.Init != nil {
+			exprs = append(exprs, s.Init)
+		}
+		exprs = append(exprs, s.Cond)
+	case *ast.SwitchStmt:
+		if s.Init != nil {
+			exprs = append(exprs, s.Init)
+		}
+		if s.Tag != nil {
+			exprs = append(exprs, s.Tag)
+		}
+	case *ast.ForStmt:
+		if s.Init != nil {
+			exprs = append(exprs, s.Init)
+		}
+		if s.Cond != nil {
+			exprs = append(exprs, s.Cond)
+		}
+	case *ast.RangeStmt:
+		exprs = append(exprs, s.X)
+	case *ast.DeferStmt:
+		exprs = append(exprs, s.Call)
+	case *ast.DeclStmt:
+		exprs = append(exprs, s.Decl)
+	default:
+		return 0, ""
+	}
+	for _, e := range exprs {
+		ast.Inspect(e, func(n ast.Node) bool {
+			switch x := n.(type) {
+			case *ast.FuncLit:
+				return false
+			case *ast.CallExpr:
+				if se, ok := x.Fun.(*ast.SelectorExpr); ok {
+					if id, ok := se.X.(*ast.Ident); ok && id.Name == "atomic" {
+						class, why = 1, "atomic."+se.Sel.Name
+					} else if lockMethods[se.Sel.Name] {
+						class, why = 1, "."+se.Sel.Name
+					}
+				}
+			case *ast.Ident:
+				if ins.mutable[x.Name] && x.Obj == nil || (ins.mutable[x.Name] && x.Obj != nil && x.Obj.Kind == ast.Var && isPackageLevel(x.Obj)) {
+					class, why = 1, "var "+x.Name
+				}
+			}
+			return true
+		})
+	}
+	return class, why
+}
+
+func isPackageLevel(o *ast.Object) bool {
+	// package-level variables are declared by a *ast.ValueSpec in a GenDecl;
+	// without type information the cheap test is: not declared by := / params
+	_, ok := o.Decl.(*ast.ValueSpec)
+	return ok
+}
+
+func (ins *inserter) list(stmts []ast.Stmt) []ast.Stmt {
+	for _, st := range stmts {
+		inner := st
+		if ls, ok := st.(*ast.LabeledStmt); ok {
+			inner = ls.Stmt
+		}
+		if class, why := ins.classify(inner); class != 0 {
+			id := ins.rw.newSite(class, ins.fset.Position(st.Pos()), ins.file, why)
+			ins.edits = append(ins.edits, edit{ins.fset.Position(st.Pos()).Offset, 0, yieldText(id) + "; "})
+			if class == 1 {
+				ins.rw.rep.ClassA++
+			} else {
+				ins.rw.rep.ClassB++
+			}
+		}
+		ins.descend(inner)
+	}
+	return stmts
+}
+
+func (ins *inserter) block(b *ast.BlockStmt) {
+	if b == nil {
+		return
+	}
+	b.List = ins.list(b.List)
+}
+
+func (ins *inserter) descend(st ast.Stmt) {
+	switch s := st.(type) {
+	case *ast.BlockStmt:
+		ins.block(s)
+	case *ast.IfStmt:
+		ins.block(s.Body)
+		if s.Else != nil {
+			ins.descend(s.Else)
+		}
+	case *ast.ForStmt:
+		ins.block(s.Body)
+	case *ast.RangeStmt:
+		ins.block(s.Body)
+	case *ast.SwitchStmt:
+		for _, c := range s.Body.List {
+			cc := c.(*ast.CaseClause)
+			cc.Body = ins.list(cc.Body)
+		}
+	case *ast.TypeSwitchStmt:
+		for _, c := range s.Body.List {
+			cc := c.(*ast.CaseClause)
+			cc.Body = ins.list(cc.Body)
+		}
+	case *ast.SelectStmt:
+		for _, c := range s.Body.List {
+			cc := c.(*ast.CommClause)
+			cc.Body = ins.list(cc.Body)
+		}
+	case *ast.LabeledStmt:
+		ins.descend(s.Stmt)
+	}
+}
+
